@@ -7,6 +7,7 @@ import (
 	"os"
 	"sort"
 	"strings"
+	"sync"
 	"time"
 
 	"golang.org/x/tools/go/ssa"
@@ -105,6 +106,8 @@ type Finding struct {
 	Inputs  []Input
 	Result  string // sat / unknown
 	Note    string
+	Src     string // trimmed source line of the failing expression
+	Job     Job
 }
 
 type Config struct {
@@ -114,6 +117,7 @@ type Config struct {
 	PermuteMaps bool
 	Timeout     int // solver ms
 	HardTimeout int // one-shot portfolio seconds
+	MaxWall     int // seconds per job (0: 600)
 	Stubs       map[string]bool
 	TrackAlloc  bool
 }
@@ -146,6 +150,7 @@ type Engine struct {
 	reach    map[string]int
 	samples  []map[string]interface{}
 	handles  map[string]int // unique.Make canonical cells
+	initRan  map[string]bool
 	initDone bool
 	inInit   bool
 	endHook  func(st *State)
@@ -156,7 +161,7 @@ type Engine struct {
 
 func NewEngine(ld *Loaded, cfg Config) *Engine {
 	e := &Engine{tb: NewTB(), prog: ld.prog, ld: ld, cfg: cfg, globals: map[*ssa.Global]int{}, root: map[int]*Object{},
-		seenF: map[string]bool{}, funcs: map[string]bool{}, stubsHit: map[string]int{}, reach: map[string]int{}, handles: map[string]int{}, allocSites: map[string]int{}}
+		seenF: map[string]bool{}, funcs: map[string]bool{}, stubsHit: map[string]int{}, reach: map[string]int{}, handles: map[string]int{}, initRan: map[string]bool{}, allocSites: map[string]int{}}
 	e.stats = &SolverStats{}
 	if e.cfg.Timeout == 0 {
 		e.cfg.Timeout = 20000
@@ -339,12 +344,19 @@ func (e *Engine) model(st *State, extra *Term) *Model {
 
 // report records a finding (deduplicated by key).
 func (e *Engine) report(st *State, kind, fn, expr string, pos token.Pos, viol *Term, res string) {
+	src := ""
+	if kind != "assert" {
+		src = e.srcLine(pos)
+	}
 	key := kind + "|" + fn + "|" + expr
+	if src != "" {
+		key = kind + "|" + fn + "|" + src
+	}
 	if e.seenF[key] {
 		return
 	}
 	e.seenF[key] = true
-	f := Finding{Kind: kind, Func: fn, Expr: expr, Pos: exprText(e.prog, pos), Key: key, Harness: e.harness, Result: res}
+	f := Finding{Kind: kind, Func: fn, Expr: expr, Pos: exprText(e.prog, pos), Key: key, Harness: e.harness, Result: res, Src: src}
 	f.Inputs = append([]Input{}, st.inputs...)
 	if res == "sat" {
 		f.Model = e.model(st, viol)
@@ -429,7 +441,16 @@ func (e *Engine) Run(name string, fn *ssa.Function, args []Val, init *State) {
 	st.threads = []*Thread{th}
 	e.pushFrame(st, th, fn, args, nil, nil)
 	e.work = append(e.work, st)
+	deadline := time.Now().Add(time.Duration(e.cfg.MaxWall) * time.Second)
+	if e.cfg.MaxWall == 0 {
+		deadline = time.Now().Add(600 * time.Second)
+	}
 	for len(e.work) > 0 {
+		if time.Now().After(deadline) {
+			e.inconc = append(e.inconc, fmt.Sprintf("%s: wall-clock budget exhausted with %d states pending after %d paths", name, len(e.work), e.paths+e.deadPaths))
+			e.work = nil
+			break
+		}
 		st := e.work[len(e.work)-1]
 		e.work = e.work[:len(e.work)-1]
 		e.runPath(st)
@@ -591,7 +612,7 @@ func (e *Engine) globalObj(st *State, g *ssa.Global) int {
 	}
 	if e.initDone && !e.inInit {
 		// global of a package whose initialiser was not run
-		if g.Pkg != nil && !e.ld.initRan[g.Pkg.Pkg.Path()] {
+		if g.Pkg != nil && !e.initRan[g.Pkg.Pkg.Path()] {
 			t := g.Type().(*types.Pointer).Elem()
 			// zero-valued globals of un-initialised packages are allowed only for plain
 			// data that the initialiser would not touch (sync primitives, counters)
@@ -642,7 +663,7 @@ func (e *Engine) constVal(st *State, c *ssa.Const) Val {
 
 func isLoopHead(b *ssa.BasicBlock) bool {
 	for _, p := range b.Preds {
-		if p.Index >= b.Index {
+		if b.Dominates(p) { // back edge
 			return true
 		}
 	}
@@ -703,6 +724,19 @@ func (e *Engine) enterBlock(st *State, fr *Frame) {
 				eq = e.tb.And(eq, e.objEq(po, co))
 				if eq.IsFalse() {
 					break
+				}
+			}
+		}
+		if !eq.IsFalse() {
+			for id, co := range st.heap {
+				if _, ok := prev.heap[id]; ok {
+					continue
+				}
+				if ro := st.root[id]; ro != nil && ro != co {
+					eq = e.tb.And(eq, e.objEq(ro, co))
+					if eq.IsFalse() {
+						break
+					}
 				}
 			}
 		}
@@ -1050,4 +1084,32 @@ func (e *Engine) scribble(st *State, v Val) {
 			}
 		}
 	}
+}
+
+var srcCache = map[string][]string{}
+var srcMu sync.Mutex
+
+// srcLine returns the whitespace-normalised source line at pos (stable under line renumbering).
+func (e *Engine) srcLine(pos token.Pos) string {
+	if !pos.IsValid() {
+		return ""
+	}
+	p := e.prog.Fset.Position(pos)
+	srcMu.Lock()
+	defer srcMu.Unlock()
+	lines, ok := srcCache[p.Filename]
+	if !ok {
+		var b []byte
+		if ov, ok2 := e.ld.overlay[p.Filename]; ok2 {
+			b = ov
+		} else {
+			b, _ = os.ReadFile(p.Filename)
+		}
+		lines = strings.Split(string(b), "\n")
+		srcCache[p.Filename] = lines
+	}
+	if p.Line < 1 || p.Line > len(lines) {
+		return ""
+	}
+	return strings.Join(strings.Fields(lines[p.Line-1]), " ")
 }
